@@ -186,6 +186,30 @@ def _eligible(fdef, klass=None, known=()):
     return True
 
 
+def _local_nodes(func):
+    '''Nodes of the body of `func`, nested function and class bodies
+    excluded (the nested definitions themselves are yielded).'''
+    todo = list(func.body)
+    while todo:
+        node = todo.pop()
+        yield node
+        if isinstance(node, (ast.FunctionDef, ast.AsyncFunctionDef,
+                             ast.ClassDef, ast.Lambda)):
+            continue
+        todo.extend(ast.iter_child_nodes(node))
+
+
+def _rebinds_outer(inner, outer):
+    '''A closure that stores into a name that the enclosing function also
+    uses would create a local of its own: inlined, the store would hit the
+    outer variable.'''
+    outer_names = {n.id for n in _local_nodes(outer)
+                   if isinstance(n, ast.Name)} | set(_params(outer))
+    inner_stores = {n.id for n in ast.walk(inner) if isinstance(
+        n, ast.Name) and isinstance(n.ctx, (ast.Store, ast.Del))}
+    return bool(inner_stores & outer_names)
+
+
 def _is_generator(fdef):
     return _contains(ast.Module(body=fdef.body, type_ignores=[]), ast.Yield)
 
@@ -459,6 +483,26 @@ class _Inliner:
                         node, self._qual(klass), self.known) and \
                         names[node.name] == 1:
                     out[(klass.name, node.name)] = node
+        # new closures: functions defined inside a function and called by
+        # name there (the free variables are the caller's own names)
+        def nested(func, qual):
+            for node in _local_nodes(func):
+                if isinstance(node, ast.FunctionDef):
+                    stores = sum(1 for n in ast.walk(func) if isinstance(
+                        n, ast.Name) and n.id == node.name and
+                        isinstance(n.ctx, (ast.Store, ast.Del)))
+                    if names[node.name] == 1 and not stores and \
+                            (None, node.name) not in out and _eligible(
+                                node, qual, self.known):
+                        out[(None, node.name)] = node
+
+        def each(body, prefix):
+            for node in body:
+                if isinstance(node, ast.FunctionDef):
+                    nested(node, prefix + node.name)
+                elif isinstance(node, ast.ClassDef):
+                    each(node.body, prefix + node.name + '.')
+        each(self.tree.body, '')
         return out
 
     def _qual(self, klass):
@@ -855,13 +899,16 @@ class _Inliner:
                     r'(\.%s\b|\b%s\s*\(|import[^\n]*\b%s\b|[\'"]%s[\'"])'
                     % (name_re, name_re, name_re, name_re), self.foreign):
                 continue
-            holder = self.tree if kname is None else next(
-                n for n in ast.walk(self.tree)
-                if isinstance(n, ast.ClassDef) and n.name == kname and
-                fdef in n.body)
-            holder.body.remove(fdef)
-            if not holder.body:
-                holder.body.append(ast.Pass())
+            holder = next((lst for n in ast.walk(self.tree)
+                           for fld in ('body', 'orelse', 'finalbody')
+                           for lst in [getattr(n, fld, None)]
+                           if isinstance(lst, list) and
+                           any(x is fdef for x in lst)), None)
+            if holder is None:
+                continue
+            holder.remove(fdef)
+            if not holder:
+                holder.append(ast.Pass())
             removed += 1
         return removed
 
@@ -982,6 +1029,329 @@ class _Operators(ast.NodeTransformer):
         return node
 
 
+# ------------------------------------------------------ dispatch tables ---
+
+def _const_key(node):
+    if isinstance(node, ast.Constant):
+        return True
+    while isinstance(node, ast.Attribute):
+        node = node.value
+    return isinstance(node, ast.Name)
+
+
+def _callable_value(node):
+    if isinstance(node, ast.Lambda):
+        return False
+    while isinstance(node, ast.Attribute):
+        node = node.value
+    return isinstance(node, ast.Name)
+
+
+def _table_literal(value):
+    '''[(key, callable)] of a dict display of callables keyed by
+    constants, else None.'''
+    if not isinstance(value, ast.Dict) or len(value.keys) < 2:
+        return None
+    if any(k is None or not _const_key(k) for k in value.keys):
+        return None
+    if not all(_callable_value(v) for v in value.values):
+        return None
+    if len({ast.unparse(k) for k in value.keys}) != len(value.keys):
+        return None
+    return list(zip(value.keys, value.values))
+
+
+def _lookup(expr, tables):
+    '''(table name, key expr, default expr or None, kind) when `expr` is
+    T[k] / T.get(k) / T.get(k, d) on a known table.'''
+    def tname(node):
+        if isinstance(node, ast.Name) and node.id in tables:
+            return node.id
+        if isinstance(node, ast.Attribute) and isinstance(
+                node.value, ast.Name) and node.attr in tables and \
+                tables[node.attr][1] != 'local':
+            return node.attr
+        return None
+    if isinstance(expr, ast.Subscript) and isinstance(expr.ctx, ast.Load):
+        name = tname(expr.value)
+        if name is not None:
+            return name, expr.slice, None, 'item'
+    if isinstance(expr, ast.Call) and isinstance(expr.func, ast.Attribute) \
+            and expr.func.attr == 'get' and not expr.keywords and \
+            len(expr.args) in (1, 2):
+        name = tname(expr.func.value)
+        if name is not None:
+            dflt = expr.args[1] if len(expr.args) == 2 else None
+            if dflt is not None:
+                # T.get(k, T[None]): the default is an entry of the table
+                inner = _lookup(dflt, tables)
+                if inner is not None and inner[0] == name and \
+                        inner[3] == 'item':
+                    hit = [v for k, v in tables[name][0]
+                           if ast.unparse(k) == ast.unparse(inner[1])]
+                    dflt = hit[0] if hit else None
+                    if dflt is None:
+                        return None
+                elif not _callable_value(dflt):
+                    return None
+            return name, expr.args[0], dflt, 'get'
+    return None
+
+
+def _desugar_dispatch(tree, foreign_text=''):
+    '''`T = {K1: f1, K2: f2}; ...; T[k](args)` (also T.get(k, d)(args) and
+    `h = T.get(k); if h is not None: h(args)`) becomes the if / elif chain
+    on k that it abbreviates.  Tables: a local of the function assigned
+    once, or a class / module constant that the module only looks up.
+    Returns the number of rewritten sites.'''
+    count = [0]
+    temp = [0]
+    # class and module constants
+    shared = {}
+    for holder, kind in [(tree, 'module')] + [
+            (n, 'class') for n in ast.walk(tree)
+            if isinstance(n, ast.ClassDef)]:
+        for stmt in holder.body:
+            if isinstance(stmt, ast.Assign) and len(stmt.targets) == 1 and \
+                    isinstance(stmt.targets[0], ast.Name):
+                entries = _table_literal(stmt.value)
+                if entries is not None:
+                    shared[stmt.targets[0].id] = (entries, kind, stmt)
+    for name in list(shared):
+        uses = defs = 0
+        for node in ast.walk(tree):
+            if isinstance(node, ast.Name) and node.id == name:
+                if isinstance(node.ctx, ast.Store):
+                    defs += 1
+                else:
+                    uses += 1
+            elif isinstance(node, ast.Attribute) and node.attr == name:
+                if isinstance(node.ctx, ast.Store):
+                    defs += 1
+                else:
+                    uses += 1
+        looked = sum(1 for node in ast.walk(tree)
+                     if _lookup(node, {name: shared[name]}) is not None)
+        if defs != 1 or looked != uses or re.search(
+                r'\b%s\b' % re.escape(name), foreign_text):
+            del shared[name]
+
+    def key_test(kexpr, key):
+        if isinstance(key, ast.Constant) and key.value is None:
+            return ast.Compare(left=copy.deepcopy(kexpr), ops=[ast.Is()],
+                               comparators=[ast.Constant(value=None)])
+        return ast.Compare(left=copy.deepcopy(kexpr), ops=[ast.Eq()],
+                           comparators=[copy.deepcopy(key)])
+
+    def chain(entries, kexpr, dflt, kind, make):
+        '''make(callable expr or None) -> list of statements.'''
+        pre = []
+        keys = {ast.unparse(k) for k, _ in entries}
+        if keys == {'True', 'False'} and isinstance(kexpr, ast.Call) and \
+                isinstance(kexpr.func, ast.Name) and kexpr.func.id == \
+                'bool' and len(kexpr.args) == 1:
+            by = {ast.unparse(k): v for k, v in entries}
+            return [ast.If(test=copy.deepcopy(kexpr.args[0]),
+                           body=make(by['True']),
+                           orelse=make(by['False']))]
+        if not _simple(kexpr):
+            temp[0] += 1
+            kname = f'_key{temp[0]}'
+            pre.append(ast.Assign(
+                targets=[ast.Name(id=kname, ctx=ast.Store())],
+                value=kexpr, lineno=0))
+            kexpr = ast.Name(id=kname, ctx=ast.Load())
+        if dflt is not None:
+            last = make(dflt)
+        elif kind == 'item':
+            last = [ast.Raise(exc=ast.Call(
+                func=ast.Name(id='KeyError', ctx=ast.Load()),
+                args=[copy.deepcopy(kexpr)], keywords=[]), cause=None)]
+        else:
+            last = make(None)
+        node = None
+        for key, val in reversed(entries):
+            node = ast.If(test=key_test(kexpr, key), body=make(val),
+                          orelse=[node] if node is not None else last)
+        return pre + [node]
+
+    def call_stmt_of(stmt):
+        '''The call that is the whole value of the statement.'''
+        if isinstance(stmt, ast.Expr) and isinstance(stmt.value, ast.Call):
+            return stmt.value
+        if isinstance(stmt, (ast.Assign, ast.Return)) and isinstance(
+                stmt.value, ast.Call):
+            return stmt.value
+        return None
+
+    def with_func(stmt, call, func_expr):
+        new = copy.deepcopy(stmt)
+        target = call_stmt_of(new)
+        target.func = copy.deepcopy(func_expr)
+        return new
+
+    def rewrite_function(func):
+        tables = dict(shared)
+        local_defs = {}
+        for node in _local_nodes(func):
+            if isinstance(node, ast.Assign) and len(node.targets) == 1 and \
+                    isinstance(node.targets[0], ast.Name):
+                entries = _table_literal(node.value)
+                name = node.targets[0].id
+                if entries is not None and name not in shared:
+                    stores = sum(1 for n in ast.walk(func) if isinstance(
+                        n, ast.Name) and n.id == name and
+                        isinstance(n.ctx, (ast.Store, ast.Del)))
+                    if stores == 1:
+                        tables[name] = (entries, 'local', node)
+                        local_defs[name] = node
+        if not tables:
+            return
+        for name in list(local_defs):
+            uses = sum(1 for n in ast.walk(func) if isinstance(
+                n, ast.Name) and n.id == name and isinstance(n.ctx, ast.Load))
+            looked = sum(1 for n in ast.walk(func) if _lookup(
+                n, {name: tables[name]}) is not None)
+            if uses != looked:
+                del tables[name]
+                del local_defs[name]
+
+        def name_uses(ident):
+            return sum(1 for n in ast.walk(func)
+                       if isinstance(n, ast.Name) and n.id == ident)
+
+        def block(stmts):
+            out = []
+            idx = 0
+            while idx < len(stmts):
+                stmt = stmts[idx]
+                idx += 1
+                if isinstance(stmt, (ast.FunctionDef, ast.AsyncFunctionDef,
+                                     ast.ClassDef)):
+                    out.append(stmt)
+                    continue
+                for fld in ('body', 'orelse', 'finalbody'):
+                    sub = getattr(stmt, fld, None)
+                    if isinstance(sub, list) and sub and isinstance(
+                            sub[0], ast.stmt):
+                        setattr(stmt, fld, block(sub))
+                for hdl in getattr(stmt, 'handlers', []) or []:
+                    hdl.body = block(hdl.body)
+                # T[k](args) as a whole statement
+                call = call_stmt_of(stmt)
+                look = _lookup(call.func, tables) if call is not None \
+                    else None
+                if look is not None:
+                    name, kexpr, dflt, kind = look
+
+                    def make(val, stmt=stmt, call=call, kind=kind):
+                        if val is None:
+                            return [ast.Raise(exc=ast.Call(
+                                func=ast.Name(id='TypeError',
+                                              ctx=ast.Load()),
+                                args=[], keywords=[]), cause=None)]
+                        return [with_func(stmt, call, val)]
+                    out.extend(chain(tables[name][0], kexpr, dflt, kind,
+                                     make))
+                    count[0] += 1
+                    continue
+                # h = T.get(k) ... if h is not None: h(args)  /  h(args)
+                if isinstance(stmt, ast.Assign) and len(stmt.targets) == 1 \
+                        and isinstance(stmt.targets[0], ast.Name):
+                    look = _lookup(stmt.value, tables)
+                    hname = stmt.targets[0].id
+                    nxt = next((j for j in range(idx, len(stmts))
+                                if any(isinstance(n, ast.Name) and
+                                       n.id == hname
+                                       for n in ast.walk(stmts[j]))), None)
+                    if look is not None and nxt is not None:
+                        name, kexpr, dflt, kind = look
+                        use = stmts[nxt]
+                        between = stmts[idx:nxt]
+                        guarded = None
+                        if isinstance(use, ast.If) and not use.orelse:
+                            test = use.test
+                            if (isinstance(test, ast.Name) and
+                                    test.id == hname) or (
+                                        isinstance(test, ast.Compare) and
+                                        isinstance(test.left, ast.Name) and
+                                        test.left.id == hname and
+                                        len(test.ops) == 1 and isinstance(
+                                            test.ops[0], ast.IsNot) and
+                                        isinstance(test.comparators[0],
+                                                   ast.Constant) and
+                                        test.comparators[0].value is None):
+                                guarded = use.body
+                        body = guarded if guarded is not None else [use]
+                        calls = [n for b in body for n in ast.walk(b)
+                                 if isinstance(n, ast.Call) and isinstance(
+                                     n.func, ast.Name) and
+                                 n.func.id == hname]
+                        n_body = sum(1 for b in body for n in ast.walk(b)
+                                     if isinstance(n, ast.Name) and
+                                     n.id == hname)
+                        expected = 1 + n_body + (1 if guarded is not None
+                                                 else 0)
+                        simple_use = guarded is not None or \
+                            call_stmt_of(use) in calls
+                        if calls and len(calls) == n_body and simple_use \
+                                and name_uses(hname) == expected and (
+                                    guarded is not None or
+                                    dflt is not None or kind == 'item'):
+                            def make(val, body=body, hname=hname):
+                                if val is None:
+                                    return [ast.Pass()]
+                                new = [copy.deepcopy(b) for b in body]
+                                for b in new:
+                                    for n in ast.walk(b):
+                                        if isinstance(n, ast.Call) and \
+                                                isinstance(n.func, ast.Name) \
+                                                and n.func.id == hname:
+                                            n.func = copy.deepcopy(val)
+                                return new
+                            out.extend(between)
+                            out.extend(chain(tables[name][0], kexpr, dflt,
+                                             kind, make))
+                            count[0] += 1
+                            idx = nxt + 1
+                            continue
+                out.append(stmt)
+            return out
+
+        before = count[0]
+        func.body = block(func.body)
+        if count[0] == before:
+            return
+        # a local table that is no longer looked up goes away
+        for name, node in local_defs.items():
+            if not any(isinstance(n, ast.Name) and n.id == name and
+                       isinstance(n.ctx, ast.Load) for n in ast.walk(func)):
+                for holder in ast.walk(func):
+                    for fld in ('body', 'orelse', 'finalbody'):
+                        lst = getattr(holder, fld, None)
+                        if isinstance(lst, list) and any(
+                                x is node for x in lst):
+                            lst.remove(node)
+                            if not lst:
+                                lst.append(ast.Pass())
+
+    for func in [n for n in ast.walk(tree)
+                 if isinstance(n, ast.FunctionDef)]:
+        rewrite_function(func)
+    # shared tables that are no longer looked up go away
+    if count[0]:
+        for name, (_entries, _kind, node) in shared.items():
+            if not any(_lookup(n, {name: shared[name]}) is not None
+                       for n in ast.walk(tree)):
+                for holder in ast.walk(tree):
+                    lst = getattr(holder, 'body', None)
+                    if isinstance(lst, list) and any(x is node for x in lst):
+                        lst.remove(node)
+                        if not lst:
+                            lst.append(ast.Pass())
+    return count[0]
+
+
 def inline_source(src, foreign_text='', known=(), exported=None):
     '''(new source, number of call sites inlined).  `exported`: {module
     name: {function name: FunctionDef}} of the new single-expression helpers
@@ -998,6 +1368,8 @@ def inline_source(src, foreign_text='', known=(), exported=None):
                         if alias.name in funcs:
                             imported[alias.asname or alias.name] = \
                                 funcs[alias.name]
+    total += _desugar_dispatch(tree, foreign_text)
+    ast.fix_missing_locations(tree)
     for _ in range(MAX_ROUNDS):
         inl = _Inliner(tree, foreign_text, known, imported)
         helpers = inl.helpers()
